@@ -329,7 +329,7 @@ func c07Classify(c *Ctx, fn *ssa.Function, b *ssa.BasicBlock) (string, string) {
 			if onFalse {
 				return "unknown-kind", ""
 			}
-		case (strings.HasSuffix(p, "!=nil)") || strings.HasSuffix(p, "==nil)")) && (strings.Contains(p, "encodeMesgDef") || strings.Contains(p, "alloc[def")):
+		case (strings.HasSuffix(p, "!=nil)") || strings.HasSuffix(p, "==nil)")) && (strings.Contains(p, "encodeMesgDef") || strings.Contains(p, "alloc[def") || isDefPtrCompare(cond)):
 			if onFalse && strings.HasSuffix(p, "!=nil)") || onTrue && strings.HasSuffix(p, "==nil)") {
 				return "def-nil", ""
 			}
@@ -493,8 +493,12 @@ func c07Panics(c *Ctx, r *Report, scope []*ssa.Function, p *Profile, hosted map[
 			nRef++
 			per[name]++
 			key := fmt.Sprintf("%s/reflect.%s#%d", fn.Name(), name, per[name])
-			if why, ok := c07ReflectAudit[fn.Name()+"/"+name]; ok {
+			if why, ok := c07ReflectStructural(c, fn, ci, name); ok {
+				r.ok("C07-R2-reflect-preconditions", key, c.pos(ci.Pos()), why)
+			} else if why, ok := c07ReflectAudit[fn.Name()+"/"+name]; ok {
 				r.ok("C07-R2-reflect-preconditions", key, c.pos(ci.Pos()), "audited: "+why)
+			} else if why, via, ok := c07AuditInherited(c, fn, name); ok {
+				r.ok("C07-R2-reflect-preconditions", key, c.pos(ci.Pos()), "audited (as part of "+via+", the only caller of "+fn.Name()+"): "+why)
 			} else {
 				r.fail("C07-R2-reflect-preconditions", key, c.pos(ci.Pos()), "reflect."+name+" has kind/validity preconditions (it panics otherwise) and this call in "+fn.Name()+" is not in the audited table: e.g. Bytes() on a slice whose elements are not uint8, Int() on an unsigned field")
 			}
@@ -608,14 +612,14 @@ func c07EveryMessageWritten(c *Ctx, r *Report) {
 	} else {
 		r.fail("C07-R5-every-message-written", "encodeDefAndDataMesg", "", "not found")
 	}
-	if fn := c.ssaFn(c.fn(c.fit, "encoder.encodeFile")); fn != nil {
+	for _, fn := range c.listWriterFns() {
 		succ := map[*ssa.BasicBlock]bool{}
 		for _, ret := range c.successReturns(fn) {
 			succ[ret.Block()] = true
 		}
 		n := 0
 		for _, ci := range allCalls(fn) {
-			if !isWrite(ci) {
+			if !isWrite(ci) || !inLoop(ci.Block()) {
 				continue
 			}
 			n++
@@ -842,4 +846,146 @@ func encodeNoRowCopies(c *Ctx, r *Report, rule string) {
 		}
 	}
 	r.check(bad == "" && nFn > 5, rule, "encode/no-row-copies", c.pos(enc.Pos()), fmt.Sprintf("%d functions reachable from Encode: no copy of a profile row is made and no row member is stored to", nFn), "the encoder makes or modifies a private copy of a profile row in "+bad+": the size or type a definition declares can then differ from the profile's (and from what the value writer emits or the decoder expects)")
+}
+
+// c07ReflectStructural: preconditions that are visible in the code around the call.
+//   X.Index(i): i is the counter of a loop `for i = 0; i < X.Len(); i++` over the same X;
+//   X.Len():    X is a slice by a dominating `X.Kind() == reflect.Slice` test on the same X, or X
+//               is a parameter and at every call site of this function in the module the argument
+//               passes the same rule in the caller.
+func c07ReflectStructural(c *Ctx, fn *ssa.Function, ci ssa.CallInstruction, name string) (string, bool) {
+	args := ci.Common().Args
+	if len(args) == 0 {
+		return "", false
+	}
+	x := args[0]
+	switch name {
+	case "Index":
+		if len(args) != 2 {
+			return "", false
+		}
+		phi, ok := args[1].(*ssa.Phi)
+		if !ok || len(phi.Edges) != 2 {
+			return "", false
+		}
+		okPhi := false
+		for i, e := range phi.Edges {
+			k, isK := e.(*ssa.Const)
+			inc, isInc := phi.Edges[1-i].(*ssa.BinOp)
+			if isK && k.Value != nil && k.Int64() == 0 && isInc && inc.Op == token.ADD && inc.X == ssa.Value(phi) {
+				if one, ok := inc.Y.(*ssa.Const); ok && one.Int64() == 1 {
+					okPhi = true
+				}
+			}
+		}
+		if !okPhi {
+			return "", false
+		}
+		ifi, ok := phi.Block().Instrs[len(phi.Block().Instrs)-1].(*ssa.If)
+		if !ok {
+			return "", false
+		}
+		cond, ok := ifi.Cond.(*ssa.BinOp)
+		if !ok || cond.Op != token.LSS || cond.X != ssa.Value(phi) {
+			return "", false
+		}
+		ln, ok := cond.Y.(*ssa.Call)
+		if !ok || ln.Common().StaticCallee() == nil || ln.Common().StaticCallee().String() != "(reflect.Value).Len" || ln.Common().Args[0] != x {
+			return "", false
+		}
+		if !phi.Block().Succs[0].Dominates(ci.Block()) && phi.Block().Succs[0] != ci.Block() {
+			return "", false
+		}
+		return "index is the counter of a loop bounded by Len() of the same value", true
+	case "Len":
+		return c07IsSlice(c, fn, x, ci.Block(), 0)
+	}
+	return "", false
+}
+
+func c07IsSlice(c *Ctx, fn *ssa.Function, x ssa.Value, at *ssa.BasicBlock, depth int) (string, bool) {
+	if depth > 2 {
+		return "", false
+	}
+	kindTest := func(v ssa.Value) bool {
+		bo, ok := v.(*ssa.BinOp)
+		if !ok || bo.Op != token.EQL {
+			return false
+		}
+		call, ok := bo.X.(*ssa.Call)
+		k, ok2 := bo.Y.(*ssa.Const)
+		if !ok || !ok2 || call.Common().StaticCallee() == nil || call.Common().StaticCallee().String() != "(reflect.Value).Kind" || call.Common().Args[0] != x {
+			return false
+		}
+		return k.Value != nil && k.Int64() == 23 // reflect.Slice
+	}
+	if domByBoolEdge(fn, at, true, kindTest) {
+		return "under Kind() == reflect.Slice of the same value", true
+	}
+	p, ok := x.(*ssa.Parameter)
+	if !ok {
+		return "", false
+	}
+	idx := -1
+	for i, q := range fn.Params {
+		if q == p {
+			idx = i
+		}
+	}
+	n := 0
+	for _, caller := range c.moduleFuncs() {
+		for _, cs := range allCalls(caller) {
+			if cs.Common().StaticCallee() != fn {
+				continue
+			}
+			n++
+			if _, ok := c07IsSlice(c, caller, cs.Common().Args[idx], cs.Block(), depth+1); !ok {
+				return "", false
+			}
+		}
+	}
+	if n == 0 {
+		return "", false
+	}
+	return "a parameter that every caller fills with a value under Kind() == reflect.Slice", true
+}
+
+// c07AuditInherited: a function with exactly one calling function in the module is a piece of
+// that function (an extracted helper): it inherits the caller's audited entries.
+func c07AuditInherited(c *Ctx, fn *ssa.Function, name string) (string, string, bool) {
+	cur := fn
+	for depth := 0; depth < 3; depth++ {
+		callers := map[*ssa.Function]bool{}
+		for _, g := range c.moduleFuncs() {
+			for _, cs := range allCalls(g) {
+				if cs.Common().StaticCallee() == cur {
+					callers[g] = true
+				}
+			}
+		}
+		if len(callers) != 1 {
+			return "", "", false
+		}
+		for g := range callers {
+			cur = g
+		}
+		if why, ok := c07ReflectAudit[cur.Name()+"/"+name]; ok {
+			return why, cur.Name(), true
+		}
+	}
+	return "", "", false
+}
+
+// isDefPtrCompare: a comparison of a *encodeMesgDef value with nil (by type, not by spelling).
+func isDefPtrCompare(cond ssa.Value) bool {
+	bo, ok := cond.(*ssa.BinOp)
+	if !ok {
+		return false
+	}
+	pt, ok := bo.X.Type().(*types.Pointer)
+	if !ok {
+		return false
+	}
+	n, ok := pt.Elem().(*types.Named)
+	return ok && n.Obj().Name() == "encodeMesgDef" && isNilConst(bo.Y)
 }
